@@ -179,10 +179,88 @@ def lift_deg_mod(model):
     return {"scss": src, "want": "%rdeg (in [0,360))" % want, "got": vals, "reproduced": bad}
 
 
+def lift_random(model):
+    lim = _val(model, "limit")
+    if lim is None or lim <= 0:
+        return None
+    outs = [native.run_scss("@use 'sass:math';\na{b: math.random(%d)}" % lim, prof) for prof in ("dev", "release")]
+    bad = False
+    got = []
+    for r in outs:
+        if r["outcome"] != "ok":
+            bad = bad or r["outcome"] in ("panic", "crash")
+            got.append("<%s> %s" % (r["outcome"], r["message"][:80]))
+            continue
+        m = re.search(r"b: (-?[0-9]+);", r["message"])
+        got.append(m.group(1) if m else r["message"][:40])
+        if not m or not (1 <= int(m.group(1)) <= lim):
+            bad = True
+    return {"scss": "math.random(%d)" % lim, "want": "an integer in [1, %d], no panic" % lim, "got": got, "reproduced": bad}
+
+
+def lift_adjust(model, kind):
+    old = amt = None
+    for k, v in (model or {}).items():
+        if "acc_" in k or "acc:" in k:
+            old = smt.f64_from_model(v)
+        if "arg.amount" in k:
+            amt = smt.f64_from_model(v)
+    if old is None or amt is None or not (0 <= old <= 1 and 0 <= amt <= 1):
+        return None
+    pct = lambda x: repr(round(x * 100, 9)) + "%"
+    if kind in ("lighten", "darken"):
+        src = "lightness(%s(hsl(120, 50%%, %s), %s))" % (kind, pct(old), pct(amt))
+        want = old + amt if kind == "lighten" else old - amt
+    else:
+        src = "saturation(%s(hsl(120, %s, 50%%), %s))" % (kind, pct(old), pct(amt))
+        want = old + amt if kind == "saturate" else old - amt
+    want = min(max(want, 0.0), 1.0) * 100
+    vals, outs = _css_value(src)
+    bad = False
+    for t in vals:
+        m = re.match(r"(-?[0-9.e+-]+)%$", t)
+        if not m or abs(float(m.group(1)) - want) > 1e-6:
+            bad = True
+    return {"scss": src, "want": "%r%%" % want, "got": vals, "reproduced": bad}
+
+
+# native confirmation of structural (event-identity) obligations: fixed public-API probes per kernel
+STRUCTURAL_PROBES = {
+    "k_plus_minus_units": [("1in - 1cm", "0.6062992126in"), ("1in + 1cm", "1.3937007874in"), ("1cm - 1in", "-1.54cm"),
+                           ("1 + 1px", "2px"), ("1px - 1", "0px"), ("2 - 1px", "1px"), ("1s - 1ms", "0.999s"), ("90deg + 1turn", "450deg")],
+    "k_numeric_cmp": [("1in > 2cm", "true"), ("2cm > 1in", "false"), ("1in == 2.54cm", "true"), ("2.54cm == 1in", "true"),
+                      ("1s < 1ms", "false"), ("1 < 2px", "true"), ("1px == 1", "false")],
+    "k_and_or": [("() or 1", "()"), ("null or 1", "1"), ("0 and 1", "1"), ("false and 1", "false"), ("\"\" or 2", "\"\""), ("(null,) or 3", "null")],
+    "k_binop_short_circuit": [("false and $undefined-variable", "false"), ("true or $undefined-variable", "true")],
+    "k_is_true": [("if((), 1, 2)", "1"), ("if(unquote(\"\"), 1, 2)", "1"), ("if(0, 1, 2)", "1"), ("if(null, 1, 2)", "2")],
+    "k_set_nth": [("set-nth(a b c, -3, x)", "x b c"), ("set-nth(a b c, 3, x)", "a b x"), ("set-nth((a, b), 1, x)", "x, b"), ("nth(a b c, -3)", "a")],
+    "k_fade": [("alpha(opacify(rgba(red, .5), .25))", "0.75"), ("alpha(transparentize(rgba(red, .5), .25))", "0.25"),
+               ("alpha(fade-in(rgba(red, .5), .75))", "1")],
+    "k_lighten_darken": [("lightness(darken(#333, 50%))", "0%"), ("lightness(lighten(#ccc, 50%))", "100%"),
+                         ("saturation(desaturate(hsl(0, 20%, 50%), 50%))", "0%"), ("hue(lighten(hsl(77, 20%, 50%), 10%))", "77deg")],
+}
+
+
+def structural_probe(kernel):
+    probes = STRUCTURAL_PROBES.get(kernel)
+    if not probes:
+        return None
+    diffs = []
+    for src, want in probes:
+        vals, outs = _css_value(src)
+        if any(v != want for v in vals):
+            diffs.append({"scss": src, "want": want, "got": vals})
+    return {"probes": len(probes), "disagreements": diffs, "reproduced": bool(diffs) or None}
+
+
 def lift(ob):
     kind = ob.get("lift")
     model = ob.get("model")
     try:
+        if kind == "random":
+            return lift_random(model)
+        if kind and kind.startswith("adjust:"):
+            return lift_adjust(model, kind.split(":", 1)[1])
         if kind == "str-slice":
             return lift_str_slice(model)
         if kind == "str-insert":
@@ -269,6 +347,8 @@ def run(pid, tier, known, log, write_replay_file):
                 continue
             # violated
             lf = lift(ob)
+            if lf is None:
+                lf = structural_probe(kn)
             ob["lifted"] = lf
             kmatch = None
             for kid, k in known_ids.items():
